@@ -67,4 +67,117 @@ theorem dynLoop_false_of_none (names : List String) (hy : Bool) : ∀ (toks : Li
     simp only [dynLoop, h1, h2]
     split <;> simp
 
+
+/-! ## a simple class: plain numbers (non-empty strings of ASCII digits) are one NUMBER token -/
+
+def allDigits (s : Str) : Prop := ∀ c ∈ s, isDigit c = true
+
+theorem digit_ne {c : Char} (h : isDigit c = true) : c ≠ '-' ∧ c ≠ ':' ∧ c ≠ '.' := by
+  refine ⟨?_, ?_, ?_⟩ <;> (rintro rfl; revert h; decide)
+
+theorem lit_char_allDigits (x : Char) (hx : isDigit x = false) (r : Str) (h : allDigits r) : lit [x] r = none := by
+  cases r with
+  | nil => simp [lit, startsWith]
+  | cons c cs =>
+    have hc : isDigit c = true := h c (by simp)
+    have : (c == x) = false := by
+      apply beq_false_of_ne; rintro rfl; rw [hc] at hx; exact absurd hx (by simp)
+    simp [lit, startsWith, this]
+
+theorem digitsN_allDigits : ∀ (k : Nat) (s : Str), allDigits s →
+    digitsN k s = none ∨ ∃ r, digitsN k s = some r ∧ allDigits r
+  | 0, s, h => Or.inr ⟨s, rfl, h⟩
+  | k + 1, [], _ => Or.inl rfl
+  | k + 1, c :: cs, h => by
+    have hc : isDigit c = true := h c (by simp)
+    simp only [digitsN, hc, if_true]
+    exact digitsN_allDigits k cs (fun x hx => h x (by simp [hx]))
+
+theorem optMinus_digit (c : Char) (cs : Str) (hc : isDigit c = true) : optMinus (c :: cs) = c :: cs := by
+  have := (digit_ne hc).1
+  unfold optMinus
+  split
+  · rename_i r heq; simp only [List.cons.injEq] at heq; exact absurd heq.1 this
+  · rfl
+
+theorem dropWhile_allDigits : ∀ (s : Str), allDigits s → s.dropWhile isDigit = []
+  | [], _ => rfl
+  | c :: cs, h => by
+    have hc : isDigit c = true := h c (by simp)
+    simp only [List.dropWhile, hc]
+    exact dropWhile_allDigits cs (fun x hx => h x (by simp [hx]))
+
+theorem mDate_allDigits (c : Char) (cs : Str) (h : allDigits (c :: cs)) : mDate (c :: cs) = none := by
+  have hc : isDigit c = true := h c (by simp)
+  unfold mDate
+  rw [optMinus_digit c cs hc]
+  rcases digitsN_allDigits 4 (c :: cs) h with h4 | ⟨r, h4, hr⟩
+  · rw [h4]; rfl
+  · rw [h4]
+    simp only [Option.bind_some, lit_char_allDigits '-' (by decide) r hr, Option.bind_none]
+
+theorem mTime_allDigits (s : Str) (h : allDigits s) : mTime s = none := by
+  unfold mTime
+  rcases digitsN_allDigits 2 s h with h2 | ⟨r, h2, hr⟩
+  · rw [h2]; rfl
+  · rw [h2]
+    simp only [Option.bind_some, lit_char_allDigits ':' (by decide) r hr, Option.bind_none]
+
+theorem mNumber_allDigits (c : Char) (cs : Str) (h : allDigits (c :: cs)) : mNumber (c :: cs) = some [] := by
+  have hc : isDigit c = true := h c (by simp)
+  have hd : cs.dropWhile isDigit = [] := dropWhile_allDigits cs (fun x hx => h x (by simp [hx]))
+  unfold mNumber
+  simp only [optMinus_digit c cs hc, digits1, hc, if_true, hd]
+
+theorem pinnedRules_head : pinnedRules =
+    ("DATETIME", mDateTime) :: ("DATE", mDate) :: ("TIME", mTime) :: ("NUMBER", mNumber) :: pinnedRules.drop 4 := rfl
+
+theorem firstMatch_nil : firstMatch pinnedRules [] = none := by decide +kernel
+
+/-- a plain number is exactly one NUMBER token -/
+theorem scan_number (c : Char) (cs : Str) (h : allDigits (c :: cs)) :
+    scanWith pinnedRules (c :: cs) = ([("NUMBER", c :: cs)], []) := by
+  have hfm : firstMatch pinnedRules (c :: cs) = some ("NUMBER", (c :: cs).length) := by
+    rw [pinnedRules_head]
+    simp only [firstMatch, mDateTime, mDate_allDigits c cs h, mTime_allDigits _ h, mNumber_allDigits c cs h,
+      Option.bind_none, List.length_nil, Nat.sub_zero]
+  unfold scanWith
+  rw [scanAux, hfm]
+  have hk : ¬ ((c :: cs).length = 0) := by simp
+  simp only [hk, if_false, List.drop_length, List.take_length]
+  cases hlen : (c :: cs).length with
+  | zero => simp at hlen
+  | succ n =>
+    rw [scanAux, firstMatch_nil]
+
+
+/-! ## a simple class: date literals `dddd-dd-dd` are one DATE token -/
+
+theorem mDate_literal (a b c d e f g h : Char)
+    (ha : isDigit a = true) (hb : isDigit b = true) (hc : isDigit c = true) (hd : isDigit d = true)
+    (he : isDigit e = true) (hf : isDigit f = true) (hg : isDigit g = true) (hh : isDigit h = true) (rest : Str) :
+    mDate (a :: b :: c :: d :: '-' :: e :: f :: '-' :: g :: h :: rest) = some rest := by
+  unfold mDate
+  rw [optMinus_digit a _ ha]
+  simp [digitsN, lit, startsWith, ha, hb, hc, hd, he, hf, hg, hh]
+
+theorem pinnedRules_head2 : pinnedRules =
+    ("DATETIME", mDateTime) :: ("DATE", mDate) :: pinnedRules.drop 2 := rfl
+
+/-- a date literal is exactly one DATE token -/
+theorem scan_date (a b c d e f g h : Char)
+    (ha : isDigit a = true) (hb : isDigit b = true) (hc : isDigit c = true) (hd : isDigit d = true)
+    (he : isDigit e = true) (hf : isDigit f = true) (hg : isDigit g = true) (hh : isDigit h = true) :
+    scanWith pinnedRules [a, b, c, d, '-', e, f, '-', g, h] = ([("DATE", [a, b, c, d, '-', e, f, '-', g, h])], []) := by
+  have hdm := mDate_literal a b c d e f g h ha hb hc hd he hf hg hh []
+  have hfm : firstMatch pinnedRules [a, b, c, d, '-', e, f, '-', g, h] = some ("DATE", 10) := by
+    rw [pinnedRules_head2]
+    simp only [firstMatch, mDateTime, hdm, Option.bind_some]
+    simp [lit, startsWith]
+  unfold scanWith
+  rw [scanAux, hfm]
+  simp only [List.length_cons, List.length_nil]
+  rw [scanAux, show List.drop 10 [a, b, c, d, '-', e, f, '-', g, h] = [] from rfl, firstMatch_nil]
+  rfl
+
 end Pyxv.Lexer
